@@ -193,6 +193,28 @@ def ob_interleaved(xs, n):
     return True, ""
 
 
+def ob_chain(n):
+    """generate_one on a non-recursive schema whose types refer to each other by name along a chain of n levels
+    (concrete: used to probe depth thresholds found in the generator's source)"""
+    fields0 = [{"name": "v", "type": "int"}]
+    sch = {"type": "record", "name": "chain.Level0", "fields": fields0}
+    top = {"type": "record", "name": "chain.Top", "fields": [{"name": "l0", "type": sch}]}
+    for i in range(1, n + 1):
+        top["fields"].append({"name": f"l{i}", "type": {"type": "record", "name": f"chain.Level{i}", "fields": [
+            {"name": "prev", "type": f"chain.Level{i - 1}"}, {"name": "v", "type": "int"}]}})
+    try:
+        v = U.generate_one(top)
+    except Exception as e:
+        return False, f"generate_one raised {type(e).__name__}: {e} on a chain of {n} by-name levels"
+    try:
+        ok = V.validate(v, top, raise_errors=False)
+    except Exception as e:
+        return False, f"validate raised {type(e).__name__}: {e} on the value generated for a chain of {n} by-name levels"
+    if not ok:
+        return False, f"the value generated for a chain of {n} by-name levels does not conform to the schema"
+    return True, ""
+
+
 def ob_one(c, xs):
     d = Draws(xs)
     saved = (U.random, U.__dict__.get("range"), U.uuid)
